@@ -240,6 +240,9 @@ def check_mutator(ctx, f, pub, table):
         finals |= outs.get(rb, set())
     where = f.loc()
     probs = []
+    is_txn = (f.raw.get("self_ty") or "").startswith("vector::transaction::ObservableVectorTransaction<")
+    wipes_batch = any(t["args"] and mentions_field(b.expr_of_op(t["args"][0]), "batch") for blk, t in b.calls(r"::clear$"))
+    txn_clear = name == "clear" and is_txn and wipes_batch
     for m_, p_, bad in sorted(finals):
         if bad:
             probs.append("publication before the mutation (subscribers would get a snapshot of the old state)")
@@ -247,7 +250,9 @@ def check_mutator(ctx, f, pub, table):
             probs.append("two publications on one path")
         if name in UNCOND and (m_, p_) != (1, 1):
             probs.append("a returning path with mutated=%d published=%d" % (m_, p_))
-        if name in GUARDED and m_ != p_:
+        if name in GUARDED and m_ != p_ and not (txn_clear and m_ == 1 and p_ == 0):
+            # (a transaction's clear that wipes the recorded changes empties its working copy unconditionally and records a Clear
+            # only when the committed contents are not empty already: R05.3 judges that guard)
             probs.append("a returning path with mutated=%d published=%d" % (m_, p_))
         if name in POPS and p_ > m_:
             probs.append("published without popping")
@@ -272,6 +277,32 @@ def check_mutator(ctx, f, pub, table):
                 ctx.violated("R05.3", f, "noop-guard", b.line_at((pblk, 10 ** 6)), "clear publishes on the *empty* edge (or tests emptiness after clearing): the documented no-op emits a diff / real clears are silent")
             else:
                 ctx.violated("R05.3", f, "noop-guard", b.line_at((pblk, 10 ** 6)), "clear publishes a Clear diff even when the vector is already empty")
+    if name == "clear" and is_txn:
+        # inside a transaction subscribers are at the state from before the transaction. A clear that wipes the recorded changes
+        # needs a Clear exactly when that committed state is not empty - whatever the working copy looks like (it may be empty
+        # because of recorded pops that the wipe has just forgotten); a clear that keeps the recorded changes is guarded like the
+        # direct one, by the working copy before it is cleared
+        for pblk, pt in pubs:
+            facts = conds.bare(conds.dominating_facts(b, pblk))
+            tr = [x for x in facts if (x[0] == "truth" and x[1][0] == "call" and ecall_matches(x[1], r"::is_empty$"))]
+            tr_inner = [x for x in tr if mentions_field(x[1][3][0], "inner")]
+            tr_work = [x for x in tr if not mentions_field(x[1][3][0], "inner") and mentions_field(x[1][3][0], "values")]
+            where_ = b.line_at((pblk, 10 ** 6))
+            if wipes_batch:
+                if tr_inner and all(x[2] is False for x in tr_inner):
+                    ctx.holds("R05.3", f, "noop-guard", where_, "the recorded changes are wiped and Clear is recorded only when the committed contents are not empty")
+                elif tr_inner:
+                    ctx.violated("R05.3", f, "noop-guard", where_, "`%s` records a Clear on the *empty* edge of the committed contents: the documented no-op publishes a diff, a real clear publishes nothing" % f.path)
+                elif tr_work:
+                    ctx.violated("R05.3", f, "noop-guard", where_, "`%s` wipes the recorded changes and then decides by the *working copy* whether to record a Clear: after `pop_back` emptied the working copy of a one-item vector the wipe forgets the PopBack and no Clear is recorded - the commit empties the vector and publishes nothing" % f.path)
+                else:
+                    ctx.violated("R05.3", f, "noop-guard", where_, "`%s` records a Clear even when the vector was already empty before the transaction: committed, the documented no-op `clear on empty` publishes a diff (the direct `clear` has the guard)" % f.path)
+            else:
+                pre = all(all(b.loc_dominates(x[1][4], (mb, 10 ** 6)) for mb in mblks) for x in tr_work)
+                if tr_work and all(x[2] is False for x in tr_work) and pre:
+                    ctx.holds("R05.3", f, "noop-guard", where_, "Clear is recorded only when the working copy was not empty before it was cleared")
+                else:
+                    ctx.violated("R05.3", f, "noop-guard", where_, "`%s` records a Clear without a not-empty guard evaluated before clearing" % f.path)
     if name in POPS:
         for pblk, pt in pubs:
             facts = conds.bare(conds.dominating_facts(b, pblk))
